@@ -140,7 +140,8 @@ def _add_graph(rp, desc):
     order = nodes if desc["depot_first"] else nodes[1:] + nodes[:1]
     for name, demand, lo, hi in order:
         rp.add_node(name, demand, (lo, hi))
-    rp.set_depot(nodes[0][0])
+    if not (desc.get("skip_set_depot") and desc["depot_first"]):
+        rp.set_depot(nodes[0][0])       # skip_set_depot: the depot is simply the first node (no depot self-arc in the sequence class)
     for o, d, tt, cost in desc["arcs"]:
         rp.add_arc(o, d, tt, cost)
 
@@ -250,6 +251,12 @@ def _corner_descs():
                     make_feasible=high, mf_mode="after_query")
         for kind in KINDS:
             yield kind, dict(star)
+    # the depot is simply the first node (set_depot never called): the sequence class then has no depot self-arc, so a vehicle
+    # cannot "stay" at the depot; more vehicles than customers makes the instance infeasible
+    for (V, L, strict) in ((2, 4, False), (2, 3, True), (3, 4, True)):
+        nodep = dict(base, nodes=[("D", 0, 0, INF), ("c1", 0, 0, 9)], arcs=[("D", "c1", 1, 1), ("c1", "D", 1, 1)],
+                     time_points=[0, 1, 2], routes=[["D", "c1", "D"]], V=V, L=L, strict=strict, skip_set_depot=True)
+        yield "seq", dict(nodep)
     # a route of negative cost in the pool that the heuristic's own solution does not use: a default penalty derived from
     # the heuristic's solution (instead of from all route costs) is too small
     for neg_cost in (-5, -50):
